@@ -47,7 +47,6 @@ def referencedBlocks (strict : Bool) : List Nat → Prog (List Str)
     let more ← referencedBlocks strict bs
     pure (dedupStr (here ++ more))
 
-def strLe (a b : Str) : Bool := compare a b != .gt
 
 /-- The body of `delete_bands` while the lock is held. -/
 def deleteBody (strict : Bool) (D : List Nat) (o : DeleteOpts) (held : Option Nat) : Prog DeleteStats := do
